@@ -212,7 +212,7 @@ class JSim(cluster.Sim):
                     for other in self.live():
                         if other != name:
                             self.tick_node(other, 0.11)
-                self.check(light=True)
+                    self.check(light=True)       # after every round of ticks: commits must be seen while the entries are in the log
                 if name not in self.nodes:
                     return False
                 self.prune(name, obj)
